@@ -5,7 +5,7 @@
 //verif:cover VerifC04Reassembly malformed-middle-file reassembled
 //verif:assume faults: a fixed tree (a: 70 bytes over two leaves, d/b: 1 byte, e: empty; 2 entries per index file) uploaded or downloaded with one transient fault at a solver-chosen store call (source / metadata / blob / destination store, reads and listings included)
 //verif:cover VerifC04Faults upload-faulted download-faulted operation-failed operation-survived-the-fault
-//verif:cover VerifC04Select missing-skipped single-file filtered
+//verif:cover VerifC04Select missing-skipped single-file filtered repeated-key
 //verif:cover VerifC04UploadDownload decoy-skipped nested-datamon-kept two-index-files empty-bundle source-read-fault-reported unreadable-source-file-skipped duplicated-content
 package core
 
@@ -162,6 +162,10 @@ func VerifC04Select() {
 	missing := vChoose("missing", 2) == 1
 	if missing {
 		keys = append(keys, "nope")
+	}
+	if len(keys) > 0 && vChoose("repeated", 2) == 1 {
+		keys = append(keys, keys[0]) // the same key listed twice: still one file
+		vCover("repeated-key")
 	}
 	if vChoose("decoy", 2) == 1 {
 		src.putRaw(".conflicts/s/a", []byte("x"))
